@@ -2316,3 +2316,155 @@ Lemma nonvacuous_pop :
   defined_sem 6 (w_order false) 0 "u" = Ok true /\ is_defined all_fixed 6 (w_order false) 0 "u" = Ok true /\
   is_defined unfixed 6 (w_order false) 0 "u" = Ok false.
 Proof. split; [apply model_dag_w_order|]. repeat split; vm_compute; reflexivity. Qed.
+
+(* ------------------------------------------------------------------ the analyser's verdict on the fragment agree_cond *)
+
+Lemma get_fold_madd_gen : forall (g : string * Q -> Q) (l : list (string * Q)) m k,
+  get (fold_left (fun m c => madd (fst c) (g c) m) l m) k ==
+  get m k + sumq (map (fun c => if String.eqb (fst c) k then g c else 0) l).
+Proof.
+  intros g. induction l as [|c r IH]; intros m k.
+  - cbn. unfold sumq. cbn. ring.
+  - cbn [fold_left map]. rewrite IH, get_madd, sumq_cons. destruct (String.eqb (fst c) k); ring.
+Qed.
+
+Lemma wfmap_fold_madd : forall (g : string * Q -> Q) (l : list (string * Q)) m, wfmap m ->
+  wfmap (fold_left (fun m c => madd (fst c) (g c) m) l m).
+Proof.
+  intros g. induction l as [|c r IH]; intros m H; cbn; [exact H|]. apply IH. apply wfmap_madd. exact H.
+Qed.
+
+(* the sum of the entries of key k of a map without repeated keys is its value at k *)
+Lemma sum_entries_wf : forall (m : umap) k, wfmap m ->
+  sumq (map (fun c : string * Q => if String.eqb (fst c) k then snd c else 0) m) == get m k.
+Proof.
+  intros m k. unfold wfmap, keys. induction m as [|[key v] r IH]; intros Hnd.
+  - reflexivity.
+  - inversion Hnd as [|? ? Hnotin Hnd']; subst. cbn [map fst snd]. rewrite sumq_cons. unfold get. cbn [assoc].
+    destruct (String.eqb_spec key k) as [->|Hne].
+    + rewrite String.eqb_refl. rewrite IH by exact Hnd'. rewrite (get_notin r k Hnotin). ring.
+    + destruct (String.eqb_spec k key) as [->|_]; [contradiction Hne; reflexivity|]. rewrite IH by exact Hnd'. unfold get. ring.
+Qed.
+
+Lemma sum_entries_filter : forall (m : umap) k (g : string * Q -> Q),
+  sumq (map (fun c : string * Q => if String.eqb (fst c) k then g c else 0)
+            (filter (fun kv : string * Q => negb (String.eqb (fst kv) "dimensionless")) m)) ==
+  (if String.eqb k "dimensionless" then 0 else sumq (map (fun c : string * Q => if String.eqb (fst c) k then g c else 0) m)).
+Proof.
+  intros m k g. induction m as [|[key v] r IH].
+  - cbn. destruct (String.eqb k "dimensionless"); reflexivity.
+  - cbn [filter fst]. destruct (String.eqb_spec key "dimensionless") as [->|Hne]; cbn [negb].
+    + rewrite IH. cbn [map fst]. rewrite sumq_cons.
+      destruct (String.eqb_spec k "dimensionless") as [->|Hk]; [reflexivity|].
+      destruct (String.eqb_spec "dimensionless" k) as [E|_]; [contradiction Hk; symmetry; exact E|]. ring.
+    + cbn [map fst]. rewrite !sumq_cons, IH.
+      destruct (String.eqb_spec k "dimensionless") as [->|Hk]; [|reflexivity].
+      destruct (String.eqb_spec key "dimensionless") as [E|_]; [contradiction Hne|]. ring.
+Qed.
+
+Lemma sumq_opp : forall {A} (g : A -> Q) l, sumq (map (fun c => - g c) l) == - sumq (map g l).
+Proof.
+  intros A g l. induction l as [|a r IH]; cbn [map]; rewrite ?sumq_cons; [reflexivity|]. rewrite IH. ring.
+Qed.
+
+(* analyser.cpp: areSameUnitsMaps on maps without repeated keys *)
+Lemma ana_same_maps_iff : forall m1 m2, wfmap m1 -> wfmap m2 ->
+  (ana_same_maps m1 m2 = true <-> forall k, k <> "dimensionless" -> get m1 k == get m2 k).
+Proof.
+  intros m1 m2 W1 W2. unfold ana_same_maps.
+  set (nd := fun kv : string * Q => negb (String.eqb (fst kv) "dimensionless")).
+  set (d1 := fold_left (fun m kv => madd (fst kv) (snd kv) m) (filter nd m1) []).
+  set (d2 := fold_left (fun m kv => madd (fst kv) (- snd kv) m) (filter nd m2) d1).
+  assert (Wd : wfmap d2).
+  { apply (wfmap_fold_madd (fun kv => - snd kv)). apply (wfmap_fold_madd (fun kv => snd kv)). apply wfmap_nil. }
+  assert (G : forall k, get d2 k == (if String.eqb k "dimensionless" then 0 else get m1 k - get m2 k)).
+  { intros k. unfold d2, d1, nd. rewrite (get_fold_madd_gen (fun kv => - snd kv)).
+    rewrite (get_fold_madd_gen (fun kv => snd kv)), get_nil.
+    rewrite (sum_entries_filter m1 k (fun kv => snd kv)), (sum_entries_filter m2 k (fun kv => - snd kv)).
+    destruct (String.eqb k "dimensionless"); [ring|].
+    rewrite (sum_entries_wf m1 k W1).
+    assert (E : sumq (map (fun c : string * Q => if String.eqb (fst c) k then - snd c else 0) m2) ==
+                - sumq (map (fun c : string * Q => if String.eqb (fst c) k then snd c else 0) m2)).
+    { rewrite <- sumq_opp. apply sumq_ext. intros c _. destruct (String.eqb (fst c) k); ring. }
+    rewrite E, (sum_entries_wf m2 k W2). ring. }
+  rewrite forallb_forall. split.
+  - intros H k Hk. specialize (G k). destruct (String.eqb_spec k "dimensionless") as [E|_]; [contradiction Hk|].
+    assert (Z : get d2 k == 0).
+    { unfold get. destruct (assoc k d2) as [v|] eqn:Ha; [|reflexivity]. apply qzero_iff. apply (H (k, v)). apply assoc_In. exact Ha. }
+    rewrite Z in G. rewrite <- (Qplus_0_l (get m2 k)), G. ring.
+  - intros H [k v] Hin. cbn [snd]. apply qzero_iff. specialize (G k). unfold get in G at 1.
+    rewrite (In_assoc_nodup k v d2 Wd Hin) in G. rewrite G.
+    destruct (String.eqb_spec k "dimensionless") as [->|Hk]; [reflexivity|]. rewrite (H k Hk). ring.
+Qed.
+
+Lemma ana_map_go_dim : forall w, import_free w -> nonstd_names w -> forall k f mi n e acc,
+  defined_sem f w mi n = Ok true -> wfmap acc ->
+  exists m, ana_map_go f w mi n e acc = Ok m /\ wfmap m /\ get m k == get acc k + e * dim f w mi n k.
+Proof.
+  intros w Hfree Hns k. induction f as [|f' IH]; intros mi n e acc Hd Hwf; [discriminate|].
+  destruct (defined_lookup _ _ _ _ Hd) as [d Hl]. pose proof (Hns mi n d Hl) as Hstd.
+  destruct d as [l|mj r]; [|exfalso; apply (Hfree mi n mj r Hl)].
+  rewrite ana_map_go_S, Hstd, Hl, (is_base_defs f' w mi n l Hl Hstd).
+  destruct l as [|c0 l0].
+  - cbn [length Nat.eqb]. eexists. split; [reflexivity|]. split; [apply wfmap_madd; exact Hwf|].
+    rewrite get_madd, dim_S, (is_base_defs f' w mi n [] Hl Hstd). cbn [length Nat.eqb].
+    destruct (String.eqb n k); ring.
+  - cbn [length Nat.eqb].
+    rewrite (dim_compound f' w mi n (c0 :: l0) k Hl (is_base_defs f' w mi n (c0 :: l0) Hl Hstd) eq_refl).
+    destruct (fold_res_sum_inv
+      (fun c a =>
+                       if is_std_name (uc_ref c) then Ok (add_std (uc_ref c) (uc_exp c * e) a)
+                       else ana_map_go f' w mi (uc_ref c) (uc_exp c * e) a)
+      wfmap (fun a : umap => get a k)
+      (fun c => e * (uc_exp c * (if is_std_name (uc_ref c) then std_dim (uc_ref c) k else dim f' w mi (uc_ref c) k)))
+      (c0 :: l0)) with (s := acc) as [m [Hm [Wm Vm]]].
+    + intros c x Hin Wx. destruct (is_std_name (uc_ref c)) eqn:Hs.
+      * eexists. split; [reflexivity|]. split; [apply wfmap_add_std; exact Wx|]. rewrite get_add_std. ring.
+      * destruct (defined_children f' w mi n (c0 :: l0) c Hd Hl Hin Hs) as [_ Hdc].
+        destruct (IH mi (uc_ref c) (uc_exp c * e) x Hdc Wx) as [x' [Hx' [Wx' Vx']]].
+        exists x'. split; [exact Hx'|]. split; [exact Wx'|]. rewrite Vx'. ring.
+    + exact Hwf.
+    + exists m. split; [exact Hm|]. split; [exact Wm|]. rewrite Vm.
+      rewrite (sumq_scale (fun c => uc_exp c * (if is_std_name (uc_ref c) then std_dim (uc_ref c) k else dim f' w mi (uc_ref c) k)) e (c0 :: l0)).
+      ring.
+Qed.
+
+(** On the fragment where the three formulas agree (and without imports / units named after standard units), the analyser
+    finds the two sides of "x = y" equivalent exactly when Units::equivalent does. *)
+Lemma ana_verdict_agrees_partial : forall fx f w mi n1 n2, import_free w -> nonstd_names w ->
+  agree_cond f w mi n1 = true -> agree_cond f w mi n2 = true ->
+  is_defined fx f w mi n1 = Ok true -> is_defined fx f w mi n2 = Ok true ->
+  exists b, ana_equiv f w mi n1 n2 = Ok b /\
+            (b = true <-> equivalent fx f w (Some (mi, n1)) (Some (mi, n2)) = Ok true).
+Proof.
+  intros fx f w mi n1 n2 Hfree Hns A1 A2 D1 D2.
+  pose proof (is_defined_sound _ _ _ _ _ D1) as S1. pose proof (is_defined_sound _ _ _ _ _ D2) as S2.
+  destruct (three_agree_partial fx f w mi n1 A1) as [u1 [_ [a1 [U1 [_ [As1 [_ E1]]]]]]].
+  destruct (three_agree_partial fx f w mi n2 A2) as [u2 [_ [a2 [U2 [_ [As2 [_ E2]]]]]]].
+  destruct (ana_map_go_dim w Hfree Hns "x" f mi n1 1 [] S1 wfmap_nil) as [m1 [M1 [W1 _]]].
+  destruct (ana_map_go_dim w Hfree Hns "x" f mi n2 1 [] S2 wfmap_nil) as [m2 [M2 [W2 _]]].
+  unfold ana_equiv, ana_map. rewrite M1, M2, As1, As2. eexists. split; [reflexivity|].
+  assert (G1 : forall k, get m1 k == dim f w mi n1 k).
+  { intros k. destruct (ana_map_go_dim w Hfree Hns k f mi n1 1 [] S1 wfmap_nil) as [m [Hm [_ V]]].
+    rewrite M1 in Hm. injection Hm as <-. rewrite V, get_nil. ring. }
+  assert (G2 : forall k, get m2 k == dim f w mi n2 k).
+  { intros k. destruct (ana_map_go_dim w Hfree Hns k f mi n2 1 [] S2 wfmap_nil) as [m [Hm [_ V]]].
+    rewrite M2 in Hm. injection Hm as <-. rewrite V, get_nil. ring. }
+  rewrite andb_true_iff, (ana_same_maps_iff m1 m2 W1 W2), Qeq_bool_iff.
+  rewrite equivalent_iff.
+  rewrite (compatible_iff_same_exponents fx f w (mi, n1) (mi, n2) (or_intror Hfree) D1 D2). cbn [fst snd].
+  split.
+  - intros [Hm Hs]. assert (Hd : forall k, k <> "dimensionless" -> dim f w mi n1 k == dim f w mi n2 k).
+    { intros k Hk. rewrite <- G1, <- G2. apply Hm. exact Hk. }
+    split; [exact Hd|].
+    assert (Hc : compatible fx f w (Some (mi, n1)) (Some (mi, n2)) = Ok true).
+    { apply (compatible_iff_same_exponents fx f w (mi, n1) (mi, n2) (or_intror Hfree) D1 D2). exact Hd. }
+    destruct (factor_pos_compatible fx f w (mi, n1) (mi, n2) u1 u2 Hc U1 U2) as [q [Hq Vq]].
+    exists q. split; [exact Hq|]. rewrite Vq, <- E1, <- E2, Hs. ring.
+  - intros [Hd [q [Hq Vq]]]. split.
+    + intros k Hk. rewrite G1, G2. apply Hd. exact Hk.
+    + apply scaling_factor_pow in Hq. destruct Hq as [a' [b' [l1 [l2 [Ea [Eb [_ [H1 [H2 ->]]]]]]]]].
+      injection Ea as <-. injection Eb as <-. cbn [fst snd] in H1, H2. rewrite U1 in H1. rewrite U2 in H2.
+      injection H1 as <-. injection H2 as <-.
+      rewrite E1, E2. rewrite <- (Qplus_0_l u1). rewrite <- Vq. ring.
+Qed.
